@@ -422,6 +422,10 @@ def build(E):
                 if isinstance(n, _ast.Attribute) and isinstance(n.value, _ast.Name) and n.value.id == nm:
                     bad.append(f"line {n.lineno}: {nm}.{n.attr} (the rule object is read or changed before it is handed on)")
         return (not bad), ("serve hands start_server the object get_certificate_auth_config() built from the file; it is replaced only when the file has no rules" if not bad else "; ".join(bad[:5]))
+    def server_wiring(E):
+        from contracts.wiring import chain_wiring
+        return chain_wiring(E, {"CertificateAuth": "certificate_auth_config"})
+    spec.syntactic.append(("[C05] start_server builds CertificateAuth from the rules it was given, whenever rules were given, into the chain of every listener", server_wiring))
     spec.syntactic.append(("[C05] the command line hands the file's rules to the server unchanged (frame on serve._serve's certificate_auth_config)", cli_frame))
 
     # "the resource actually served": the static handler's own lookup must use the SAME canonical location - percent-decoding with
